@@ -28,7 +28,10 @@ def rows(ids):
                 caught.pop(r[2], None)
         order = sorted(caught, key=lambda c: (c != prop, c))
         cb = "; ".join("%s (%s)" % (c, caught[c]) for c in order) or "not caught"
-        fp = "caught" if first == "VIOLATED" else ("missed at first, caught after strengthening" if prop in caught else ("missed by its own check; caught by " + ", ".join(order) if caught else "missed"))
+        if first == "VIOLATED" and prop not in caught:
+            fp = "own check no longer reports it (a rule that did not belong to %s was removed); caught by %s" % (prop, ", ".join(order) or "none")
+        else:
+          fp = "caught" if first == "VIOLATED" else ("missed at first, caught after strengthening" if prop in caught else ("missed by its own check; caught by " + ", ".join(order) if caught else "missed"))
         d, n = DESC.get(sid, ("?", "?"))
         out.append((sid, d, n, cb, fp))
         if "--write-meta" in sys.argv:
